@@ -104,6 +104,20 @@ def apply_text_fault(text, f):
                 cells[c] = v
             lines[idxs[0]] = ",".join(cells)
         return "\n".join(lines)
+    if k == "cell_copy":
+        # the text of one column's cell stored into another column of the same
+        # row (two columns then hold byte-identical text in that row)
+        idxs = [n for n, l in enumerate(lines) if l.split(",")[0].strip() == f["row"]]
+        if not idxs:
+            return text
+        cells = lines[idxs[0]].split(",")
+        ncol = len(cells) - 1
+        if ncol < 2:
+            return text
+        a, b = 1 + f["from"] % ncol, 1 + f["to"] % ncol
+        cells[b] = cells[a]
+        lines[idxs[0]] = ",".join(cells)
+        return "\n".join(lines)
     if k == "add_row":
         cells = [f["key"]] + [f["v"]] * f["ncol"]
         lines.insert(f["i"] % (len(lines) + 1), ",".join(cells))
@@ -160,7 +174,7 @@ class C28(Spec):
         nf = 0 if r < 0.05 else 1 if r < 0.55 else 2 if r < 0.8 else rng.choice([3, 4])
         faults = []
         for _ in range(nf):
-            k = rng.choice(["trunc", "drop_line", "dup_line", "swap_lines", "cell", "cell", "cell", "cell", "add_row", "add_col", "char", "ins", "crlf", "bom", "name_collision", "col_pair", "col_pair"])
+            k = rng.choice(["trunc", "drop_line", "dup_line", "swap_lines", "cell", "cell", "cell", "cell", "add_row", "add_col", "char", "ins", "crlf", "bom", "name_collision", "col_pair", "col_pair", "cell_copy", "cell_copy"])
             f = {"k": k}
             if k == "trunc":
                 f["at"] = rng.randrange(len(text) + 1)
@@ -170,6 +184,9 @@ class C28(Spec):
                 f["i"], f["j"] = rng.randrange(nlines), rng.randrange(nlines)
             elif k == "name_collision":
                 f["i"], f["j"] = rng.randrange(8), rng.randrange(8)
+            elif k == "cell_copy":
+                f["row"] = rng.choice(ROW_KEYS + ["quantization_matrix"] * 6 + ["dwt_depth", "dwt_depth_ho", "picture_bytes", "lossless"])
+                f["from"], f["to"] = rng.randrange(8), rng.randrange(8)
             elif k == "col_pair":
                 f["col"] = rng.randrange(8)
                 f["row1"] = rng.choice(["name", "name", "lossless", "dwt_depth", "dwt_depth_ho", "profile"])
